@@ -67,7 +67,7 @@ def generate(tier, rng):
     for _ in range(n):
         sc = gen.pick_scale(rng, decimal_share=0.3)
         big = 40
-        t = gen.random_itier(rng, tmax=big, maxn=6, long_p=0.02) if rng.random() < 0.7 else gen.random_ptier(rng, tmax=big, maxn=6, long_p=0.02)
+        t = gen.random_itier(rng, tmax=big, maxn=6, long_p=0.03) if rng.random() < 0.7 else gen.random_ptier(rng, tmax=big, maxn=6, long_p=0.06)
         u = rng.random()
         if u < 0.25:
             if t["entries"] and rng.random() < 0.7:
